@@ -172,32 +172,41 @@ def random_strings(ctx, n):
 
 
 def gen_path(ctx):
+    """yields batches of S-path cases (bounded memory in the thorough tier)"""
     core, extra = covering_cfgs(ctx)
     cfgs = core + extra
     L = 5 if ctx.thorough() else 4
-    cases = [RAWNUL_CASE]
     hexes = [vf.hexs(s) for s in vf.strings_upto(ALPHA, L)]
     hexes1 = [vf.hexs(s) for s in vf.strings_upto(ALPHA, L - 1)]
+    cases = [RAWNUL_CASE]
     for c in core:
         pre = "path\t" + c + "\t"
         cases += [pre + h for h in hexes]
+        if len(cases) > 4000000:
+            yield cases
+            cases = []
     for c in extra:
         pre = "path\t" + c + "\t"
-        cases += [pre + h for h in (hexes if ctx.thorough() else hexes1)]
+        cases += [pre + h for h in hexes1]
+    yield cases
     if ctx.thorough():
-        # length 6 under the personalities themselves
-        h6 = [vf.hexs(bytes(t)) for t in itertools.product(ALPHA, repeat=6)]
-        for d in personality_cfgs()[:0] + [x for i, x in enumerate(personality_cfgs()) if i in (0, 2, 6, 9)]:
+        # length 6 under the generic and the IDS personality
+        pc = personality_cfgs()
+        for d in (pc[0], pc[2]):
             pre = "path\t" + cfg_fields(d) + "\t"
-            cases += [pre + h for h in h6]
+            yield [pre + vf.hexs(bytes(t)) for t in itertools.product(ALPHA, repeat=6)]
+    cases = []
     st = [vf.hexs(s) for s in structured_strings(ctx)]
     rc = random_cfgs(ctx, 40 if ctx.thorough() else 12)
     for c in cfgs + rc:
         pre = "path\t" + c + "\t"
         cases += [pre + h for h in st]
+        if len(cases) > 4000000:
+            yield cases
+            cases = []
     ue = [vf.hexs(x) for x in utf8_edge_strings()]
-    for d in personality_cfgs() + [{**personality_cfgs()[2], "replacement": 0x2f, "utf8_inv": 400, "bestfit": True},
-                                   {**personality_cfgs()[0], "bestfit": True, "utf8_inv": 404}]:
+    pc = personality_cfgs()
+    for d in pc + [{**pc[2], "replacement": 0x2f, "utf8_inv": 400, "bestfit": True}, {**pc[0], "bestfit": True, "utf8_inv": 404}]:
         pre = "path\t" + cfg_fields(d) + "\t"
         cases += [pre + h for h in ue]
     # the 2^9 switch lattice x 3 handlings on short strings
@@ -212,7 +221,32 @@ def gen_path(ctx):
     r = ctx.rng
     for s in rs:
         cases.append("path\t" + r.choice(allc) + "\t" + vf.hexs(s))
-    return cases, (len(core), len(extra))
+    yield cases
+
+
+def gen_spec(ctx):
+    """the three functions against the declarative specification (Spec/SPath.v): a table or branch edit that keeps model =
+    implementation (regenerated tables) still has to agree with the specification the theorems are stated against"""
+    core, extra = covering_cfgs(ctx)
+    cases = []
+    L = 4 if ctx.thorough() else 3
+    hexes = [vf.hexs(s) for s in vf.strings_upto(ALPHA, L)]
+    st = [vf.hexs(s) for s in structured_strings(ctx)]
+    ue = [vf.hexs(x) for x in utf8_edge_strings()]
+    for c in core:
+        pre = "paths\t" + c + "\t"
+        cases += [pre + h for h in hexes]
+        cases += [pre + h for h in st]
+    for c in extra[::4]:
+        pre = "paths\t" + c + "\t"
+        cases += [pre + h for h in st]
+    for d in personality_cfgs():
+        pre = "paths\t" + cfg_fields(d) + "\t"
+        cases += [pre + h for h in ue]
+    r = ctx.rng
+    for s in random_strings(ctx, 10000 if ctx.thorough() else 2000):
+        cases.append("paths\t" + r.choice(core + extra) + "\t" + vf.hexs(s))
+    return cases
 
 
 def gen_dot(ctx):
@@ -280,18 +314,24 @@ def oracle_path(case, out):
     return None
 
 
+def oracle_none(case, out):
+    return None
+
+
 def run_suite(ctx, name, cases, oracle, keys):
     impl, model, crash = vf.correspond(ctx, name, cases)
     if crash:
         vf.report_crash(ctx, name, cases, crash)
         return
     mm = vf.first_mismatches(impl, model, limit=2000)
-    ctx.cov["suites"][name]["mismatches"] = len(mm)
+    ctx.cov["suites"][name]["mismatches"] += len(mm)
     # shortest disagreeing input first
     mm.sort(key=lambda i: (len(cases[i].split("\t")[-1]), i))
-    for i in mm[:3]:
+    nv = sum(1 for v in ctx.violations if ("C12-%s-" % name) in v[0])
+    for i in mm[:max(0, 3 - nv)]:
         vf.violation(ctx, "%s-%d" % (name, i), {
-            "kind": "implementation-differs-from-model", "suite": name, "case": cases[i],
+            "kind": "implementation-differs-from-specification" if name == "S-path-spec" else "implementation-differs-from-model",
+            "suite": name, "case": cases[i],
             "implementation": impl[i], "model": model[i], "oracle_on_implementation": oracle(cases[i], impl[i]),
             "theorem": "Properties_C12.v (total: the theorems hold of the model for every input and configuration)"})
     bad = 0
@@ -300,10 +340,10 @@ def run_suite(ctx, name, cases, oracle, keys):
         why = oracle(c, o)
         if why is not None:
             bad += 1
-            if bad <= 2 and i not in mmset:
+            if bad <= 2 and i not in mmset and nv < 3:
                 vf.violation(ctx, "%s-oracle-%d" % (name, i), {"kind": "property-oracle-fails-on-implementation", "suite": name,
                                                               "case": c, "implementation": o, "clause": why})
-    ctx.cov["suites"][name]["oracle_failures"] = bad
+    ctx.cov["suites"][name]["oracle_failures"] = ctx.cov["suites"][name].get("oracle_failures", 0) + bad
     for c, o in zip(cases, model):
         if name == "S-path":
             parts = o.split("|")
@@ -312,7 +352,7 @@ def run_suite(ctx, name, cases, oracle, keys):
                 keys.add((f[1], f[2], parts[0].split(" ")[2], parts[4].split(" ")[2], parts[2]))
             except IndexError:
                 pass
-        else:
+        elif name == "S-dotseg":
             keys.add(("n", len(o), hash(o) % 512))
     vf.sample(ctx, {"suite": name, "case": cases[len(cases) // 2], "result": model[len(cases) // 2] if model else None})
     vf.sample(ctx, {"suite": name, "case": cases[-1], "result": model[-1] if model else None})
@@ -321,9 +361,12 @@ def run_suite(ctx, name, cases, oracle, keys):
 def check(ctx):
     pr = vf.proof_step(ctx, "Properties_C12")
     keys = set()
-    pc, ncfg = gen_path(ctx)
-    run_suite(ctx, "S-path", pc, oracle_path, keys)
+    core, extra = covering_cfgs(ctx)
+    ncfg = (len(core), len(extra))
+    for batch in gen_path(ctx):
+        run_suite(ctx, "S-path", batch, oracle_path, keys)
     run_suite(ctx, "S-dotseg", gen_dot(ctx), oracle_pathn, keys)
+    run_suite(ctx, "S-path-spec", gen_spec(ctx), oracle_none, keys)
     vf.note_distinct(ctx, keys)
     # the fixed finding raw-nul-flag: its witness is RAWNUL_CASE, first case of S-path; a regression is an ordinary
     # implementation-differs-from-model violation. Known (unfixed) findings of C12: none.
@@ -340,19 +383,21 @@ def check(ctx):
     rule = ("S-path: all strings over {/ . %% u \\ 2 f 0 NUL 0xC0 0x80 A} up to length %d x %d core configurations (every personality's "
             "URL_PATH decoder configuration from the regenerated t_personalities, all-on and all-off corners, each with every switch "
             "flipped individually and every invalid-handling value) and up to length %d x %d more (every unwanted code changed, the "
-            "replacement byte changed, handling x u_decode x bestfit, distinct status codes per anomaly); prefixes of concatenations of up to %d escape/UTF-8 tokens "
+            "replacement byte changed, handling x u_decode x bestfit, distinct status codes per anomaly)%s; prefixes of concatenations of up to %d escape/UTF-8 tokens "
             "x those configurations and random ones; UTF-8 sequences at the overlong / half-full-width / surrogate / last-code-point "
             "boundaries with truncations and one wrong byte at every position; the full 2^9 switch lattice x 3 handlings on strings up to length %d and the tokens; "
             "random strings to length 300 (all bytes / alphabet / token soup). S-dotseg: all strings over {/ . a} up to length %d plus "
-            "random strings to length 300. Each case runs the four functions separately and the pipeline through "
+            "random strings to length 300. S-path-spec: the three decoding functions against the extracted declarative specification "
+            "(escape tokeniser, UTF-8 tokeniser) on the strings up to length %d, the token and UTF-8 edge strings and random strings. Each case runs the four functions separately and the pipeline through "
             "htp_normalize_parsed_uri; compared: result bytes, tx->flags masked to HTP_PATH_*, response_status_expected_number. "
             "distinct_nontrivial = distinct (switches, handling, decoder flags, pipeline flags, validate flags) classes + output classes."
-            % (L, ncfg[0], L if ctx.thorough() else L - 1, ncfg[1], 3 if ctx.thorough() else 2, 3 if ctx.thorough() else 2, 11 if ctx.thorough() else 9))
+            % (L, ncfg[0], L - 1, ncfg[1], "; all strings of length 6 under the generic and the IDS personality" if ctx.thorough() else "", 3 if ctx.thorough() else 2, 3 if ctx.thorough() else 2, 11 if ctx.thorough() else 9, 4 if ctx.thorough() else 3))
     return vf.standard_epilogue(ctx, pr, "make Props/Properties_C12.vo (coqc 8.16.1) + ./check C12", rule,
                                 ["url_encoding_invalid_handling ranges over the three values of its enum type (other integers cannot be "
                                  "passed through the typed setter; the drivers refuse them)",
                                  "the best-fit map is the default bestfit_1252 table (regenerated); htp_config_set_bestfit_map with another table is outside the model",
                                  "the pipeline is the path part of htp_normalize_parsed_uri on a transaction whose flags and expected status start at 0",
+                                 "UTF-8 theorems: the path consists of bytes (< 256), the replacement byte is a byte, HTP_PATH_UTF8_INVALID not set before the call",
                                  "allocation failure (bstr_dup) belongs to C18"])
 
 
@@ -366,10 +411,12 @@ def replay(ctx, path):
     print("case:", c)
     f = c.split("\t")
     print("input bytes:", unhex(f[-1]))
+    if f[0] == "paths":
+        print("(second line = the declarative specification of Spec/SPath.v, not the code-shaped model)")
     print("implementation:", i[0] if i else crash)
     print("model:         ", m[0] if m else None)
     why = None
     if i:
-        why = (oracle_pathn if f[0] == "pathn" else oracle_path)(c, i[0])
+        why = (oracle_pathn if f[0] == "pathn" else oracle_none if f[0] == "paths" else oracle_path)(c, i[0])
         print("oracle on implementation:", why or "passes")
     return 0 if (not crash and i == m and why is None) else 1
